@@ -3,13 +3,13 @@ import dataclasses
 import datetime
 import itertools
 from dataclasses import KW_ONLY, MISSING, InitVar, field, make_dataclass
-from typing import ClassVar, List, Optional
+from typing import ClassVar, List, Optional, Tuple
 
 from vmc import core, space
 
 PROPERTY = "C07"
 ENGINE = "E1 schema-space"
-RULE = ("every field layout up to the length bound over 13 field kinds that `dataclasses` accepts, every base/child split and "
+RULE = ("every field layout up to the length bound over 15 field kinds that `dataclasses` accepts, every base/child split and "
         "default override, every presence vector (absent / present / present-null where nullable), through the mixin and the codec: "
         "each field must hold the converted input if its key is present and its default otherwise; init=False / InitVar / ClassVar "
         "members are never read; two results never share a factory-made object; the first missing required field is named. "
@@ -18,11 +18,14 @@ ASSUMPTIONS = ["field kinds and values as listed in bounds; conversions are repr
 UNIT_TIMEOUT = 900
 CHUNK = 16
 
-KINDS = ["req", "def", "fac", "kreq", "kdef", "noinit", "optnone", "optdef", "conv", "initvar", "classvar", "kwsent", "facnoinit"]
+# "optzero" / "optfalse": nullable fields whose default is falsy but not None (0, an empty tuple) - an explicit null must still win
+KINDS = ["req", "def", "fac", "kreq", "kdef", "noinit", "optnone", "optdef", "conv", "initvar", "classvar", "kwsent", "facnoinit",
+         "optzero", "optempty"]
 
 
 def bounds(tier):
     return dict(tier=tier, max_layout_length=4 if tier == "quick" else 5, kinds=KINDS,
+                falsy_default_kinds_max_length=3 if tier == "quick" else 5,
                 splits="every base/child split below the maximum length; at the maximum length no split and a split after 2 fields",
                 override="first base field (defaulted, required or init=False) re-declared in the child, as field(default=...) and as a bare class-body default; three-level variants (override in the middle class, bottom class inherits)", entry_points=["mixin", "codec"],
                 presence=["absent", "present", "present-null (nullable kinds)"])
@@ -54,6 +57,10 @@ def mkfield(kind, i):
         return (name, Optional[int], field(default=None))
     if kind == "optdef":
         return (name, Optional[int], field(default=400 + i))
+    if kind == "optzero":
+        return (name, Optional[int], field(default=0))
+    if kind == "optempty":
+        return (name, Optional[Tuple[int, ...]], field(default=()))
     if kind == "conv":
         return (name, datetime.date)
     if kind == "initvar":
@@ -72,6 +79,8 @@ def units(tier):
         for layout in itertools.product(KINDS, repeat=n):
             if layout.count("kwsent") > 1 or layout.count("initvar") > 1:
                 continue
+            if tier == "quick" and n == maxlen and ("optzero" in layout or "optempty" in layout):
+                continue      # quick: the two falsy-default kinds take part in layouts up to length 3 (stated in bounds)
             for split in range(0, n):
                 if n == maxlen and split not in (0, 2):
                     continue   # the longest layouts are split in one place only (stated in bounds)
@@ -136,10 +145,10 @@ def expected(layout, override, present):
             if p:
                 return None
             continue
-        if p == 2 and k not in ("optnone", "optdef"):
+        if p == 2 and k not in ("optnone", "optdef", "optzero", "optempty"):
             return None
         if p == 1:
-            d[name] = {"fac": [5], "facnoinit": [6], "conv": "2020-02-03"}.get(k, 50 + i)
+            d[name] = {"fac": [5], "facnoinit": [6], "conv": "2020-02-03", "optempty": [7, 8]}.get(k, 50 + i)
         elif p == 2:
             d[name] = None
         overridden = override in (True, "middle", "bare") and i == 0
@@ -154,7 +163,7 @@ def expected(layout, override, present):
         elif k == "classvar":
             exp["__classvar__" + name] = 700 + i
         elif p == 1:
-            exp[name] = datetime.date(2020, 2, 3) if k == "conv" else d[name]
+            exp[name] = datetime.date(2020, 2, 3) if k == "conv" else ((7, 8) if k == "optempty" else d[name])
         elif p == 2:
             exp[name] = None
         else:
@@ -162,7 +171,7 @@ def expected(layout, override, present):
                 if missing is None:
                     missing = name
             else:
-                dflt = OVERRIDE_DEFAULT[k] if overridden else {"def": 100 + i, "fac": [], "kdef": 200 + i, "optnone": None, "optdef": 400 + i}[k]
+                dflt = OVERRIDE_DEFAULT[k] if overridden else {"def": 100 + i, "fac": [], "kdef": 200 + i, "optnone": None, "optdef": 400 + i, "optzero": 0, "optempty": ()}[k]
                 exp[name] = dflt
     if override in ("middle", "bottom"):
         exp["zz"] = 1
@@ -216,7 +225,7 @@ def _explore(unit, only, res, clsm, clsp):
                       dict(unit=unit, entry="codec", present=None), repr(e))
         dec = None
     eps = [("mixin", clsm, clsm.from_dict)] + ([("codec", clsp, dec)] if dec else [])
-    nullable = [k in ("optnone", "optdef") for k in layout]
+    nullable = [k in ("optnone", "optdef", "optzero", "optempty") for k in layout]
     for present in itertools.product(*[((0, 1, 2) if nl else (0, 1)) for nl in nullable]):
         e = expected(layout, override, present)
         if e is None:
